@@ -548,6 +548,7 @@ class NativeCtx:
         import signal
 
         def on_alarm(signum, frame):
+            self.hung = True
             raise Deadlock('native call still running after %d s (blocked for ever or endless loop)' % self.call_timeout)
         outermost = self._call_depth == 0
         self._call_depth += 1
@@ -868,6 +869,12 @@ def run_job(job):
         finally:
             ctx.unpatch()
         rec['ensures'] = [list(r) for r in ctx.results]
+        if getattr(ctx, 'hung', False) and item.get('sample_seed') is not None and not (rec['error'] or '').startswith('contract-run-raised'):
+            # bounded stand-in only (the contract is already undecided): a call on a small sampled input that is still running after
+            # the time limit is reported as a failing sample, whatever the contract goes on to require - and the remaining
+            # samples of this contract are skipped instead of waiting for each of them
+            rec['ensures'].append(['the-call-returns (native call still running after %d s)' % ctx.call_timeout, 'P', False, 'hang'])
+            rec['error'] = None
         rec['values'] = {k: v for k, v in ctx.values.items()}
         rec['raised'] = ctx.ns.get('raised')
         rec['exc'] = _summ(ctx.ns.get('exc')) if ctx.ns.get('exc') is not None else None
